@@ -4,6 +4,11 @@ HERE = os.path.dirname(os.path.dirname(os.path.abspath(__file__)))
 BASE = json.load(open("/root/.vp/BASELINE.json"))["cmd"]
 
 CHECKS = {
+ "C01": dict(
+   technique="explicit-state BFS over the real bandit in lock-step with an exact-rational reference model (product state = bandit digest x reference state); sampler replayed bit-exactly on a cloned generator",
+   text="Every history up to the depth bound over {fit, partial_fit with every 1-row and ordered 2-row batch, add_arm, remove_arm, re-add} is executed for each context-free policy setting and label type; after every transition the learned expectations must equal the reference model's statistic and predict_expectations() must equal the documented sampler applied to them.",
+   note="depth 4 (quick) / 5 (thorough); rewards from {-1.5, 0, 2, 1e6} / {0,1,3} / {0,1}; relative tolerance 1e-9 against exact rationals; the distributional claim is decided by exact replay of the sampler, not statistically",
+   ref="DESIGN.md section 7 (C01)"),
  "C07": dict(
    technique="explicit-state BFS over the real bandit (prior histories, canonical-digest de-duplication) x exhaustive D/continuation alphabet; differential oracle against a freshly constructed bandit",
    text="Every prior history up to the depth bound over {fit, partial_fit, add_arm, remove_arm, warm_start, predict}, for every policy combination, is followed by fit(D) for every D of the alphabet and every one-step continuation; the refitted bandit must be observationally equal to a fresh one fit on D from the same stream position. Exhaustive within the stated alphabet, executed on the implementation itself.",
